@@ -82,37 +82,114 @@ func (r *Run) curveTableVerifier(P string) map[string]curveRow {
 	return out
 }
 
-// hasherTableSigner extracts ecsigner.getHasher's table: curve constructor -> hash.
+// hasherTableSigner extracts the signer's table: curve constructor -> hash. The table function is the one whose
+// result Signer.Sign hashes the message with (`<f>(…).New()`); in the pinned tree that is ecsigner.getHasher(curve).
+// Its switch must be on the curve of the signer's private key: a parameter that Sign passes privateKey.Curve for, or
+// that field read directly.
 func (r *Run) hasherTableSigner(P string) (map[string]string, string) {
-	f := r.fn(P, pkgECSigner, "getHasher")
 	out := map[string]string{}
-	if f == nil {
+	sign := r.fn(P, pkgECSigner, "Signer.Sign")
+	if sign == nil {
 		return out, ""
 	}
+	var f *ssa.Function
+	var site *ssa.Call
+	var hashVal ssa.Value // when the selection happens in Sign itself (no helper, or the helper was inlined back)
+	var hashBlk *ssa.BasicBlock
+	for _, c := range r.callsIn(sign, "Hash.New") {
+		if len(c.Common().Args) == 0 {
+			continue
+		}
+		if hc, ok := c.Common().Args[0].(*ssa.Call); ok {
+			if callee := hc.Common().StaticCallee(); callee != nil && callee.Pkg == sign.Pkg && callee.Blocks != nil {
+				f, site = callee, hc
+				continue
+			}
+		}
+		hashVal, hashBlk = c.Common().Args[0], c.Block()
+	}
+	if f == nil && hashVal != nil {
+		f = sign
+	}
+	if f == nil {
+		if f = r.fn(P, pkgECSigner, "getHasher"); f == nil {
+			return out, ""
+		}
+	}
 	ff := r.E.Facts(f, core.Ctx{})
-	paths, _ := enumPaths(ff, 200)
+	paths, _ := enumPaths(ff, 400)
 	problems := ""
+	subject := ""
+	var subjT *core.Term
+	isCurve := func(t *core.Term) bool {
+		return t.Op == "param" || keyCurve(t.String())
+	}
 	for _, p := range paths {
+		if f == sign {
+			through := false
+			for _, b := range p {
+				through = through || b == hashBlk
+			}
+			if !through {
+				continue
+			}
+		}
 		key := "default"
 		for i := 0; i+1 < len(p); i++ {
 			for _, fc := range ff.EdgeFacts(p[i], p[i+1]) {
 				if fc.Kind == "cmp" && fc.Op == "==" {
 					a, b := fc.A, fc.B
-					if b.Op == "param" {
+					if isCurve(b) && !isCurve(a) {
 						a, b = b, a
 					}
-					if a.Op == "param" && b.Op == "call" {
+					if isCurve(a) && b.Op == "call" {
 						key = b.String()
-					} else if a.Op != "param" || b.Op != "call" {
+						if subject != "" && subject != a.String() {
+							problems = "switch compares different values: " + subject + " and " + a.String()
+						}
+						subject, subjT = a.String(), a
+					} else if f != sign {
 						problems = "switch is not on the curve value itself: " + fc.Key()
 					}
 				}
 			}
 		}
-		ret := p[len(p)-1].Instrs[len(p[len(p)-1].Instrs)-1].(*ssa.Return)
-		out[key] = ff.TB.Of(resolveOnPath(core.RetOp(ret, 0), p)).String()
+		var v ssa.Value
+		if f == sign {
+			v = hashVal
+		} else {
+			ret := p[len(p)-1].Instrs[len(p[len(p)-1].Instrs)-1].(*ssa.Return)
+			v = core.RetOp(ret, 0)
+		}
+		h := ff.TB.Of(resolveOnPath(v, p)).String()
+		if prev, has := out[key]; has && prev != h {
+			problems = "the hash for " + key + " depends on more than the curve: " + prev + " / " + h
+		}
+		out[key] = h
+	}
+	if f == sign && subjT != nil && subjT.Op == "param" {
+		problems = "the hash is selected by " + subject + ", not by the curve of the private key"
+	}
+	// a parameter subject: Sign must pass the curve of its own private key
+	if subjT != nil && subjT.Op == "param" && site != nil && problems == "" {
+		sf := r.E.Facts(sign, core.Ctx{})
+		for i, prm := range f.Params {
+			if sf.TB.Of(prm).String() != subject && ff.TB.Of(prm).String() != subject {
+				continue
+			}
+			if i < len(site.Common().Args) {
+				if at := sf.TB.Of(site.Common().Args[i]).String(); !keyCurve(at) {
+					problems = "Sign selects the hash by " + at + ", not by the curve of its private key"
+				}
+			}
+		}
 	}
 	return out, problems
+}
+
+// keyCurve: the term reads the curve of a private key field (`x.privateKey.Curve`, with or without the embedded PublicKey).
+func keyCurve(t string) bool {
+	return strings.HasSuffix(t, ".privateKey.Curve") || strings.HasSuffix(t, ".privateKey.PublicKey.Curve")
 }
 
 func runC09(r *Run) {
